@@ -222,6 +222,11 @@ CHARREF_TARGETS = [32, 10, 9, 37, 62, 34, 39, 93, 65, 233, 0x3042, 0x1F600, 0xA0
 TAG_NAMES = ["b", "i", "a", "html:span", "x-y", "em"]
 ATTR_NAMES = ["href", "class", "id", "xml:lang", "data-x"]
 NAME_POOL = ["brandShortName", "foo", "bar.baz", "a-b", "x1", "_u", "é", "vendor", "n", "foo.bar"]
+# entity names that are, or start like, an HTML5 named character reference (html.unescape would
+# replace them: Entity.val vs raw_val): with the trailing-; form (nbsp, hellip, copy, eacute) and the
+# legacy form without it (copy|right, reg|ion, times|tamp, not|ification, amp|le, lt|r, gt|k)
+HTML_LIKE_NAMES = ["copyright", "region", "timestamp", "notification", "nbsp", "hellip", "copy", "eacute",
+                   "ample", "ltr", "gtk", "quote", "copy.label", "reg-x"]
 UNKNOWN_POOL = ["unk", "zzz", "other.name", "Q", "b", "brandShortNam", "foo2"]
 
 
@@ -435,13 +440,21 @@ class FileCase:
     def __init__(self, rng, n, wild=False):
         self.q = rng.choice(['"', "'"])               # attribute quote; DTD delimiter is the other
         self.delim = other_quote(self.q)
-        self.pool = rng.sample(NAME_POOL, rng.choice([0, 1, 2, 2, 3, 4]))
+        self.pool = rng.sample(NAME_POOL, rng.choice([0, 1, 2, 2, 3, 4])) + \
+            rng.sample(HTML_LIKE_NAMES, rng.choice([0, 0, 1, 2]))
         self.ref_nodes, self.l10n_nodes = [], []
+        # names that occur in the reference only as ESCAPED TEXT (&amp;name;): not references, not known
+        escaped = [x for x in rng.sample(UNKNOWN_POOL + NAME_POOL + HTML_LIKE_NAMES, rng.choice([0, 0, 1, 2]))
+                   if x not in self.pool]
         l10n_names = self.pool + rng.sample(UNKNOWN_POOL, rng.randint(0, 3)) + \
-            rng.sample(NAME_POOL, rng.randint(0, 2))
+            rng.sample(NAME_POOL, rng.randint(0, 2)) + rng.sample(HTML_LIKE_NAMES, rng.randint(0, 1)) + escaped * 2
         for _ in range(n):
             self.ref_nodes.append(gen_value(rng, self.pool, self.q))
             self.l10n_nodes.append(gen_value(rng, l10n_names, self.q))
+        for x in escaped:
+            if n:
+                v = self.ref_nodes[rng.randrange(n)]
+                v[rng.randint(0, len(v)):0] = [("e", "amp"), ("t", x + ";")]
         self.comments = [rng.choice([None, None, "note", "a\n b"]) for _ in range(n)]
 
     def ref_text(self):
@@ -592,6 +605,12 @@ def run(chk, runner_ok):
         ([("t", "x")], [("el", "a", [("href", [("c", 34, False)])], None)]),
         ([("t", "x")], [("el", "a", [("href", [("t", "a"), ("c", 34, True)])], [("t", "y")])]),
         ([("t", "x")], [("c", 93, False), ("t", "]>")]),
+        # escaped text in the reference is not a reference: &amp;vendor; knows nothing
+        ([("t", "x "), ("e", "amp"), ("t", "vendor; "), ("e", "amp"), ("t", "nbsp;")], [("e", "vendor"), ("e", "nbsp")]),
+        # names that are or start like an HTML named character reference are ordinary entity names
+        ([("e", "copyright"), ("t", " "), ("e", "region"), ("e", "timestamp"), ("e", "notification")],
+         [("e", "copyright"), ("e", "region"), ("e", "timestamp"), ("e", "notification")]),
+        ([("e", "nbsp"), ("e", "copy"), ("e", "hellip")], [("e", "copy"), ("e", "nbsp"), ("e", "eacute")]),
     ]
     for ref_nodes, l10n_nodes in probes:
         fc = FileCase(rng, 0)
@@ -1120,6 +1139,14 @@ def replay(chk, path):
             rc |= not errs
         elif sig.startswith("check-raises"):
             rc |= isinstance(got, str)
+        elif sig == "unknown-entity-warnings" and not isinstance(got, str):
+            names = [m[len(UNKNOWN_PREFIX):].split("`")[0] for _, _, m, _ in got if m.startswith(UNKNOWN_PREFIX)]
+            rc |= names != list(f["detail"]["expected"])
+        elif sig == "context-warnings" and not isinstance(got, str):
+            pairs = [list(MISMATCH_RE.match(m).groups()) for _, _, m, _ in got if MISMATCH_RE.match(m)]
+            rc |= pairs != [list(x) for x in f["detail"]["expected"]]
+        elif sig == "false-warning:reference-unparseable" and not isinstance(got, str):
+            rc |= any(m == "can't parse en-US value" for _, _, m, _ in got)
         elif sig.startswith("css-junk") or sig == "css-unparseable-not-error":
             rc |= isinstance(got, str) or \
                 [(i[0], i[2]) for i in got if i[3] == "css"] != [("error", "reference is a CSS spec")]
